@@ -177,6 +177,18 @@ def check_text(data: dict, lab: Labels) -> None:
                 if other != text:
                     compile_pattern(other)
             require(pattern_behaviour(m, roots) == base, "compiled-object-changed-by-later-compilations", f"{text!r:.200}")
+            # a text that differs by one blank at an arbitrary character position (also inside a token or
+            # a string) must be treated on its own merits, whatever was compiled before
+            k = data.get("blank_at", 0) % (len(text) + 1)
+            variant = text[:k] + " " + text[k:] if data.get("blank_at", 0) % 2 else (text[:k] + text[k + 1:] if text[k:k + 1] == " " else text[:k] + " " + text[k:])
+            okv, mv = compile_pattern(variant)
+            behv = pattern_behaviour(mv, roots) if okv else None
+            PM._MATCHER_CACHE.clear()
+            okf, mf = compile_pattern(variant)
+            require(okv == okf, "acceptance-depends-on-compile-history", f"{variant!r:.200} after {text!r:.200}: {okv} vs fresh {okf}")
+            if okf:
+                require(pattern_behaviour(mf, roots) == behv, "behaviour-depends-on-compile-history", f"{variant!r:.200} after {text!r:.200}")
+            lab.tag("blank-variant-" + ("accepted" if okf else "rejected"))
             if spaced is not None and spaced != text:
                 ok4, m4 = compile_pattern(spaced)
                 require(ok4, "whitespace-changes-acceptance", f"{spaced!r:.300}")
@@ -201,6 +213,15 @@ def check_text(data: dict, lab: Labels) -> None:
                 if other != text:
                     compile_xpath(other)
             require(xpath_behaviour(x, roots) == base, "compiled-object-changed-by-later-compilations", f"{text!r:.200}")
+            k = data.get("blank_at", 0) % (len(text) + 1)
+            variant = text[:k] + " " + text[k:] if k > 0 else text + " "
+            xv = compile_xpath(variant)
+            behv = xpath_behaviour(xv, roots) if xv is not None else None
+            XM._AST_XPATH_CACHE.clear()
+            xf = compile_xpath(variant)
+            require((xv is None) == (xf is None), "acceptance-depends-on-compile-history", f"{variant!r:.200} after {text!r:.200}")
+            if xf is not None:
+                require(xpath_behaviour(xf, roots) == behv, "behaviour-depends-on-compile-history", f"{variant!r:.200} after {text!r:.200}")
             if spaced is not None and spaced != text:
                 x4 = compile_xpath(spaced)
                 require(x4 is not None, "whitespace-changes-acceptance", f"{spaced!r:.300}")
@@ -237,12 +258,12 @@ def st_texts(ctx: Ctx):
     wf_pat = st.tuples(c08.st_raw_pattern(), st.integers(0, 1000)).map(lambda t: P.tokens(c08.assign_names(t[0], t[1])))
     pat = st.tuples(wf_pat, mut, st.integers(0, 2**20)).map(
         lambda t: {"kind": "mutated" if t[1] else "wellformed", "lang": "pattern", "tokens": t[0], "mut": t[1],
-                   "ws": t[2], "expect": None if t[1] else "accept"})
+                   "ws": t[2], "blank_at": t[2] // 7, "expect": None if t[1] else "accept"})
     wf_xp = st.tuples(X.st_steps(c07.CLASS_NAMES, c07.FIELD_NAMES), st.booleans()).map(
         lambda t: _xpath_tokens(t[0], t[1] and not X.is_marker(t[0][0])))
     xp = st.tuples(wf_xp, mut, st.integers(0, 2**12)).map(
         lambda t: {"kind": "mutated" if t[1] else "wellformed", "lang": "xpath", "tokens": t[0], "mut": t[1],
-                   "ws": t[2], "expect": None if t[1] else "accept"})
+                   "ws": t[2], "blank_at": t[2] // 3, "expect": None if t[1] else "accept"})
     ill_pat = st.sampled_from([
         ("unknown class", "(Nope)"), ("unknown class", "(LeafA | Nope @v)"), ("unknown class", "(Mixed @child=(Nope))"),
         ("non-node class", "(CodeOrigin)"), ("non-node class", "(Source @source_uri)"), ("non-node class", "(LeafA|MultiOrigin)"),
